@@ -187,8 +187,11 @@ def rule_query_finalised(em, rep, rid):
                         and is_name(p.ast.operand.func, 'hasattr') and is_name(p.ast.operand.args[0], q):
                     return True
         return False
+    def edge_ok(lbl, a, b):
+        # restoring a limit that was valid before cannot fail
+        return not (lbl == 'exc' and a.kind == 'call' and norm(a.ast.func).endswith('setrecursionlimit'))
     for s in starts:
-        path = cfg.g.find_path(s, lambda m: m.kind == 'exit', avoid=closes)
+        path = cfg.g.find_path(s, lambda m: m.kind == 'exit', avoid=closes, edge_ok=edge_ok)
         if path is not None:
             rep.violation(rid, key, 'the query is left suspended on the path to EXIT(%s): the variables it has bound stay '
                           'bound for as long as the caller holds the generator' % path[-1][1].info, f.loc(loop), cfg.describe_path(path))
@@ -304,6 +307,7 @@ def rule_key_templates(em, rep, rid, emitter_side=True):
         t = template(resolve_local_expr(f, keyexpr))
         shape = key_shape(t)
         key = '%s:%s %s' % (f.qname, kind, norm(keyexpr))
+        n_ok += 1
         if shape is None:
             rep.violation(rid, key, 'predicate key %s does not have the form name_<arity> / name_n shared by the other '
                           'readers and writers of the table' % t, f.loc(n))
@@ -319,7 +323,6 @@ def rule_key_templates(em, rep, rid, emitter_side=True):
         if name_hole != params[0]:
             rep.violation(rid, key, 'the name part {%s} of the key is not the predicate name parameter %s' % (name_hole, params[0]), f.loc(n))
             continue
-        n_ok += 1
         rep.ok(rid, key, '%s key %s' % (shape, ''.join(v if k == 'lit' else '{%s}' % v for k, v in t)), f.loc(n))
     rep.minimum('predicate-key sites in query/register_function', n_ok, 4)
     if emitter_side:
@@ -688,7 +691,11 @@ def rule_values_never_inspected(em, rep, rid):
                         bad = r
                 if isinstance(n, ast.Call) and is_name(n.func, 'next') and n.args and is_name(n.args[0], qn):
                     pp = getattr(n, '_parent', None)
-                    if not isinstance(pp, (ast.Yield, ast.Expr)):
+                    if isinstance(pp, ast.Assign) and len(pp.targets) == 1 and isinstance(pp.targets[0], ast.Name):
+                        r = _target_read(pp.targets[0], [s for s in f.node.body])
+                        if r is not None:
+                            bad = r
+                    elif not isinstance(pp, (ast.Yield, ast.Expr)):
                         bad = n
             if bad is not None:
                 rep.violation(rid, key, 'the value yielded by a predicate is inspected (%s): yield True and yield False would '
